@@ -293,8 +293,9 @@ OBLIGATIONS['C06'] += [     # the wire hop between creation and verification
 for _p in ('C02', 'C07'):
     OBLIGATIONS[_p] += [('header::Header::is_empty', 'body'), ('header::ProtectedHeader::is_empty', 'body')]
 
-# properties about panics / termination only: postcondition-only failures of functions NOT matching these patterns do not count
-SAFETY_ONLY = {'C01': ('*from_cbor_*', '*::from_slice', '*::from_tagged_slice', '*read_to_value', '*try_as_*')}
+# properties about panics / termination only: a function that fails nothing but postconditions does not count (patterns listed
+# here would be exceptions; there are none: C01's own lemmas about decoded values are separate obligations)
+SAFETY_ONLY = {'C01': ()}
 
 # items that must FAIL verification (vacuity / soundness canaries), checked on every run
 MUST_FAIL = ['vcanary::canary_false', 'vcanary::canary_axioms']
